@@ -356,6 +356,7 @@ func (c *c19Ctx) genScenario(seed uint64, progs []*c19Prog) *Scenario {
 	if plainDst && r.Chance(1, 15) {
 		s.Fs = pick(r, []string{"ramfs", "tmpfs_small", "tmpfs_full", "tmpfs_noinodes"})
 		if s.Fs == "tmpfs_full" || s.Fs == "tmpfs_noinodes" {
+			s.DstFd = "" // (the shell that opens the descriptor would be the one to fail)
 			if s.Shape != "src-dst" && s.Shape != "d-src-dst" {
 				s.Shape, s.LstKind = "src-dst", ""
 			}
